@@ -331,7 +331,8 @@ func (s *Sess) rangeFact(t types.Type, x string) string {
 			return fmt.Sprintf("(and (<= 0 %s) (< %s %s))", x, x, pow2s(w))
 		}
 	case *types.Slice:
-		return "(<= 0 " + s.seqLen(s.sortOf(u.Elem()), x) + ")"
+		l := s.seqLen(s.sortOf(u.Elem()), x)
+		return "(and (<= 0 " + l + ") (< " + l + " 9223372036854775808))"
 	case *types.Pointer, *types.Interface:
 		return ""
 	case *types.Map:
